@@ -8,6 +8,8 @@ from nvlib.check import Prop
 OT_SIZE = 16          # ObjectHashSize written into the harness config (small: chains are crossed by small populations)
 NBP = 8               # blueprints b0..b7 for small populations
 NBP_LARGE = 320       # blueprints available in the mudlib copy (large populations)
+NIH = 48              # i<k>.c = `inherit "/c08/b<k>";` for k < NIH
+MAX_INHERIT = 8       # MaxInheritDepth written into the harness config (reachable by nested loads)
 
 
 def scripts_first(lines):
@@ -271,6 +273,8 @@ class C08(Prop):
                  "errNoDestSrc": ("lib/efuns/inventory.c", "move_object failed: could not find destination"),
                  "errRestrictSrc": ("src/simulate.c", "*Only this_object() can be destructed from move_or_destruct."),
                  "errCloneCloneSrc": ("src/simulate.c", "*Cannot clone from a clone!"),
+                 "errChainSrc": ("src/simulate.c", "*Inherit chain too deep: > "),
+                 "errNoInheritSrc": ("src/simulate.c", "*Inherited file '/"),
                  "errEfunCbSrc": ("lib/lpc/array.c", "*Object destructed during efun callback."),
                  "errInitDestedSrc": ("src/simulate.c", "*An object was destructed at call of "),
                  "errItemDestedSrc": ("src/simulate.c", "*The object to be moved was destructed at call of "),
@@ -295,7 +299,9 @@ class C08(Prop):
                "/-- lib/rc/rc.cpp `__LIVING_HASH_TABLE_SIZE__` -/",
                "def livingHashSize : Nat := %s" % m2.group(1),
                "/-- `ObjectHashSize` of the harness configuration (props/c08.py), rounded up to a power of two as init_otable does -/",
-               "def otSize : Nat := %d" % OT_SIZE]
+               "def otSize : Nat := %d" % OT_SIZE,
+               "/-- `MaxInheritDepth` of the harness configuration (props/c08.py) = `__INHERIT_CHAIN_SIZE__` -/",
+               "def inheritChainSize : Nat := %d" % MAX_INHERIT]
         return "\n".join(out)
 
 
@@ -378,6 +384,17 @@ class C08(Prop):
         mk("catch-variants", """script o3 init ct,err;aa,o3,va\nscript o3 act ct,mv,o4,o4;ct,de,o3\nscript o2 hbeat ct,err;de,o4\nscript o5 create ct,err;ct,mv,o5,o5
             t ld,b0\nt cl,b0\nt cl,b0\nt ec,o4\nt mv,o4,o2\nt mv,o3,o2\nsnap\nt cmd,o4,va\nsnap\nt hbe,o2\ntick\nsnap\nprobe\ntick
             t ct,cl,b0\nt ct,ld,bad\nt ct,mvs,o2,nx\nt ct,mv,o2,o2\nt ct,nop\nt ct,err\nt de,o2\n""" + tail)
+        # load_object's inherit detour: the inherited program is loaded first, its create() re-enters the load
+        mk("inherit-base-create-loads-child", "script o2 create ld,i0\nt ld,i0\nsnap\nprobe\nt fo,i0\nt ld,i0\nt de,o3\nsnap\nt fo,i0\nt fo,b0\nt ld,i0\n" + tail)
+        mk("inherit-base-create-clones-child", "script o2 create cl,i1\nt ld,i1\nsnap\nprobe\nt fo,i1\nt cl,i1\nt de,o3\nt fo,i1#1\nt ld,i1\n" + tail)
+        mk("inherit-base-destructs-itself", "script o2 create de,o2\nt ld,i2\nsnap\nprobe\nt fo,i2\nt fo,b2\nt ld,i2\n" + tail)
+        mk("inherit-base-create-errors", "script o2 create err\nt ld,i3\nsnap\nprobe\nt ld,i3\nt fo,i3\nt cl,i3\n" + tail)
+        mk("inherit-child-create-loads-itself", "script o3 create ld,i4;cl,i4;fo,i4\nscript o4 create ld,i4;de,o3\nt ld,b4\nt ld,i4\nsnap\nprobe\nt fo,i4\nt ld,i4\n" + tail)
+        mk("inherit-chain-too-deep", "\n".join("script o%d create de,o%d" % (k, k) for k in range(2, 14)) + "\nt ld,i5\nsnap\nprobe\nt ld,i5\nt ld,b0\n" + tail)
+        mk("inherit-nested-loads-to-the-limit", "\n".join("script o%d create ld,b%d" % (k, k) for k in range(2, 14)) + "\nt ld,b1\nsnap\nt ld,b1\nt ct,ld,b40\nt ld,b41\n" + tail)
+        mk("inherit-by-clone-move-first_inventory", """script o2 create ld,i6;de,o3\nscript o5 create cl,i7\nscript o9 create mvs,o2,i8
+            t cl,i6\nsnap\nt ld,b0\nt mvs,o4,i7\nsnap\nprobe\nt fis,i8\nt fis,i8\nt ct,cl,i9\nt ld,i47\n""" + tail)
+        mk("inherit-both-creates-interfere", """script o2 create ld,i10;de,o3\nscript o3 create de,o2\nscript o4 create cl,i10\nt ld,i10\nsnap\nprobe\nt fo,i10\nt fo,b10\nt ld,i10\nt ld,b10\n""" + tail)
         # large population: every hash chain is long
         big = ["t ld,b%d" % k for k in range(120)] + ["t cl,b%d" % (k % 7) for k in range(100)]
         big += ["t mv,o%d,o%d" % (k + 30, 2 + k % 25) for k in range(150)]
@@ -407,7 +424,9 @@ class C08(Prop):
                 return "o%d" % self_id
             return "o%d" % rng.range(2, hi)
         if k in ("ld", "cl"):
-            b = rng.weighted([("b%d" % rng.below(st["nbp"]), 30), ("nx", 1), ("bad", 1)])
+            b = rng.weighted([("b%d" % rng.below(st["nbp"]), 30), ("i%d" % rng.below(min(st["nbp"], NIH)), 5), ("nx", 1), ("bad", 1)])
+            if b[0] == "i":
+                st["est"] += 1   # (the inherited program may have to be loaded first)
             st["est"] += 1
             if table is self.OPS:
                 st["top"] += 1
@@ -512,6 +531,35 @@ class C08(Prop):
                 body.append("t pr,o%d,o%d" % (e, rng.choice(xs)))
                 if rng.chance(1, 2):
                     body.append("t pr,o%d,o%d" % (e, rng.choice(xs)))
+            elif rng.chance(1, 8):
+                # loads that RE-ENTER: i<k> inherits b<k> (not loaded yet, so load_object loads it first and runs its
+                # create()); that create() - or the create() of i<k> itself - loads / clones / moves to / destructs
+                # the very objects being loaded
+                kk = rng.range(8, NIH - 1)
+                f = "i%d" % kk
+                nb, nx = st["top"] + 1, st["top"] + 2
+                ES = st.setdefault("extra_scripts", [])
+                if rng.chance(1, 5):
+                    body.append("t ld,b%d" % kk)      # the inherited program is already there
+                    nb, nx = nb + 1, nx + 1
+                    st["top"] += 1
+                    st["est"] += 1
+                else:
+                    for tgt in ([nb] if rng.chance(2, 3) else [nb, nb + 1]):
+                        ES.append("script o%d create %s" % (tgt, rng.weighted([
+                            ("ld,%s" % f, 8), ("cl,%s" % f, 4), ("de,o%d" % tgt, 3), ("ld,%s;de,o%d" % (f, tgt), 2),
+                            ("ld,%s;de,o%d" % (f, tgt + 1), 2), ("err", 1), ("ct,ld,%s" % f, 1), ("fis,%s" % f, 1),
+                            ("mvs,o%d,%s" % (rng.range(2, max(2, st["top"])), f), 2), ("ld,%s;ld,%s" % (f, f), 1)])))
+                if rng.chance(1, 2):
+                    ES.append("script o%d create %s" % (nx, rng.weighted([
+                        ("ld,%s" % f, 4), ("cl,%s" % f, 4), ("de,o%d" % nx, 2), ("de,o%d" % nb, 2), ("ld,b%d" % kk, 1), ("err", 1)])))
+                body.append("t " + rng.weighted([("ld,%s" % f, 6), ("cl,%s" % f, 3), ("fis,%s" % f, 1),
+                                                 ("mvs,o%d,%s" % (rng.range(2, max(2, st["top"])), f), 2)]))
+                st["top"] += 2
+                st["est"] += 3
+                body += ["snap", "probe", "t fo,%s" % f, "t ld,%s" % f]
+                if rng.chance(1, 2):
+                    body += ["t de,o%d" % rng.choice([nb, nx, nx + 1]), "snap", "t fo,%s" % f, "t fo,b%d" % kk, "t ld,%s" % f]
             elif rng.chance(1, 9) and st["top"] >= 3:
                 # objects(filter): the filter (called once per object, newest first) destructs the object it is asked
                 # about, one it was asked about earlier, one still to come, or creates / moves objects
@@ -698,7 +746,11 @@ class C08(Prop):
             ("init-after-item-left", born + ["new o4 c08/b1", "he o4 create", "mvb o3 o2", "hb o2 init o3", "mvb o3 o4", "r mv o3 o4 ok", "he o2 init", "hb o3 init o2"]),
             ("init-with-object-outside-destination", born + ["new o4 c08/b1", "he o4 create", "mvb o3 o2", "hb o3 init o4"]),
             ("move_or_destruct-outside-destruct", born + ["hb o3 mod 0"]),
-            ("found-destructed", ["r ld c08/b0 0 1"]),
+            ("found-destructed", ["r ld c08/b0 0 1 0"]),
+            ("load-find-disagree", born + ["r ld c08/b0 o2 1 o3"]),
+            ("load-find-disagree", born + ["r ld c08/b0 0 1 o3"]),
+            ("ok", born + ["r ld c08/b0 o2 1 o2"]),
+            ("ok", born + ["r ld c08/b0 ? 1 ?"]),
             ("found-destructed", ["r fo c08/b0 0 1"]),
             ("found-destructed", ["r fl la 0 1"]),
             ("found-destructed", ["P o2 ref=o2 find=0/1 env=0 inv= walk= fl=-"]),
@@ -759,11 +811,15 @@ class C08(Prop):
     # ---- implementation side -------------------------------------------------
     def prepare(self, ctx):
         self.exe = E.compile_harness("c08", [os.path.join(E.VERIF, "harness/c08/c08.c")])
-        self.conf = E.make_mudlib(ctx.rundir, master="/c08/master.c", extra_conf="ObjectHashSize %d\n" % OT_SIZE)
+        self.conf = E.make_mudlib(ctx.rundir, master="/c08/master.c",
+                                  extra_conf="ObjectHashSize %d\nMaxInheritDepth %d\n" % (OT_SIZE, MAX_INHERIT))
         d = os.path.join(ctx.rundir, "mudlib", "c08")
         for k in range(NBP_LARGE):
             with open(os.path.join(d, "b%d.c" % k), "w") as f:
                 f.write('#include "/c08/obj.c"\n')
+        for k in range(NIH):
+            with open(os.path.join(d, "i%d.c" % k), "w") as f:
+                f.write('inherit "/c08/b%d";\n' % k)
         with open(os.path.join(d, "bad.c"), "w") as f:
             f.write("void create () { this is not LPC\n")
 
